@@ -549,7 +549,9 @@ fn yieldspin_impl(x: &mut Exec, io: bool) -> Res {
 fn park(x: &mut Exec) -> Res {
     let rounds = x.rng.range(2, if x.thorough { 10 } else { 5 }) as usize;
     let fresh = x.rng.chance(2, 3); // fresh Blocker per round vs the coroutine's own park handle
-    let target_co = if fresh { x.rng.chance(3, 4) } else { true };
+    // a fresh FastBlocker instead (coroutines only): its unpark runs the coroutine at once on the unparker's thread
+    let fast = fresh && x.rng.chance(1, 4);
+    let target_co = if fast { true } else if fresh { x.rng.chance(3, 4) } else { true };
     let unparkers = x.rng.range(1, 3) as usize;
     // per round: Some(d) => timed park; has_unpark => an unparker calls unpark for this round
     let plan: Vec<(Option<u64>, bool, u64)> = (0..rounds)
@@ -567,26 +569,32 @@ fn park(x: &mut Exec) -> Res {
         }
     }
     let slot: Arc<Vec<std::sync::Mutex<Option<Arc<Blocker>>>>> = Arc::new((0..rounds).map(|_| std::sync::Mutex::new(None)).collect());
+    let fslot: Arc<Vec<std::sync::Mutex<Option<Arc<may::sync::FastBlocker>>>>> = Arc::new((0..rounds).map(|_| std::sync::Mutex::new(None)).collect());
     let started: Arc<Vec<AtomicBool>> = Arc::new((0..rounds).map(|_| AtomicBool::new(false)).collect());
     let co_handle: Arc<std::sync::Mutex<Option<coroutine::Coroutine>>> = Arc::new(std::sync::Mutex::new(None));
     let gave_up: Arc<Vec<AtomicBool>> = Arc::new((0..rounds).map(|_| AtomicBool::new(false)).collect());
     let errs = Arc::new(std::sync::Mutex::new(Vec::<String>::new()));
     {
-        let (slot, started, plan, errs, co_handle) = (slot.clone(), started.clone(), plan.clone(), errs.clone(), co_handle.clone());
+        let (slot, started, plan, errs, co_handle, fslot) = (slot.clone(), started.clone(), plan.clone(), errs.clone(), co_handle.clone(), fslot.clone());
         x.spawn("target", target_co, move |a| {
             if !fresh {
                 *co_handle.lock().unwrap() = Some(coroutine::current());
             }
             for (i, (d, _has, _)) in plan.iter().enumerate() {
-                let b = if fresh { Some(Blocker::current()) } else { None };
+                let b = if fresh && !fast { Some(Blocker::current()) } else { None };
                 if let Some(b) = &b {
                     *slot[i].lock().unwrap() = Some(b.clone());
+                }
+                let fb = if fast { Some(Arc::new(may::sync::FastBlocker::new())) } else { None };
+                if let Some(fb) = &fb {
+                    *fslot[i].lock().unwrap() = Some(fb.clone());
                 }
                 // everything called after this point is "after the previous park returned"
                 started[i].store(true, SeqCst);
                 let t0 = Instant::now();
                 a.call("park", i as u64);
                 let res: Result<(), coroutine::ParkError> = match (&b, d) {
+                    _ if fb.is_some() => fb.as_ref().unwrap().park(d.map(Duration::from_micros)),
                     (Some(b), d) => b.park(d.map(Duration::from_micros)),
                     (None, Some(d)) => {
                         coroutine::park_timeout(Duration::from_micros(*d));
@@ -618,7 +626,7 @@ fn park(x: &mut Exec) -> Res {
         });
     }
     for u in 0..unparkers {
-        let (slot, started, plan, co_handle, gave_up) = (slot.clone(), started.clone(), plan.clone(), co_handle.clone(), gave_up.clone());
+        let (slot, started, plan, co_handle, gave_up, fslot) = (slot.clone(), started.clone(), plan.clone(), co_handle.clone(), gave_up.clone(), fslot.clone());
         let is_co = x.rng.chance(1, 2);
         x.spawn(&format!("unparker{}", u), is_co, move |a| {
             for (i, (_d, has, delay)) in plan.iter().enumerate() {
@@ -646,7 +654,10 @@ fn park(x: &mut Exec) -> Res {
                 }
                 nap(*delay);
                 a.call("unpark", i as u64);
-                if fresh {
+                if fast {
+                    let b = fslot[i].lock().unwrap().clone().unwrap();
+                    b.unpark();
+                } else if fresh {
                     let b = slot[i].lock().unwrap().clone().unwrap();
                     b.unpark();
                 } else {
@@ -657,7 +668,7 @@ fn park(x: &mut Exec) -> Res {
             }
         });
     }
-    x.desc = format!("park rounds(timeout_us,unparked,delay_us)={:?} fresh_blocker={} target_co={} unparkers={}", plan, fresh, target_co, unparkers);
+    x.desc = format!("park rounds(timeout_us,unparked,delay_us)={:?} fresh_blocker={} fast_blocker={} target_co={} unparkers={}", plan, fresh, fast, target_co, unparkers);
     let r = x.wait_all();
     if let Err(Fail::Stranded(msg)) = &r {
         // the round the target is stuck in: did its unparker give up before the target got there (a machine that
